@@ -156,19 +156,22 @@ PROPS["C17"] = dict(
 
 PROPS["C13"] = dict(
     level="proof",
-    technique="Lean 4 theorems about a model of PrivateKey::from_slice / PublicKey::from_slice (dalek's permissive decompress mirrored incl. sqrt_ratio_i, then recompress-and-compare) over ZMod p with a machine-checked primality certificate of p (Pratt/Lucas) and the p = 5 mod 8 square-root argument; group arithmetic by conformance to a Lean reference curve",
-    level_text="C13_secret_iff: accepted <-> 32 bytes and LE value < l. C13_public_iff (sound + complete): accepted <-> canonical encoding of a point on the curve (y < p, x recoverable with the encoded sign, no negative zero); completeness uses Nat.Prime p proved from a generated Pratt certificate. C13_public_eq_reference: the model accepts exactly what RFC 8032 strict decoding accepts, for every byte string. C13_rejects_noncanonical_y (all y in [p, 2^255)), C13_rejects_negative_zero, C13_bytes_roundtrip (binary, hex, consensus). Key ARITHMETIC (from_private_key, +, -, *) delegates to curve25519-dalek and is decided by conformance against the Lean reference curve on random and special operands (identity, small-order points, l-1, P+(-P)) plus the algebraic identities of the property.",
-    level_note="Trusted: Lean kernel (+ Mathlib for ZMod / lucas_primality); model/Rust correspondence of acceptance differential (incl. all 38 non-canonical-y encodings, both negative-zero encodings, the 8 small-order points); dalek's field/point arithmetic modelled by Ref/Ed25519.lean and validated differentially, not proved (Mathlib has no Edwards group law).",
+    technique="Lean 4 theorems about a model of PrivateKey::from_slice / PublicKey::from_slice (dalek's permissive decompress mirrored incl. sqrt_ratio_i, then recompress-and-compare) over ZMod p with a machine-checked primality certificate of p (Pratt/Lucas) and the p = 5 mod 8 square-root argument; group arithmetic: dalek vs a Lean reference curve that is PROVED to be the group law of the curve (Proofs/EdwardsGroup, EdwardsRef, EdwardsLawful)",
+    level_text="C13_secret_iff: accepted <-> 32 bytes and LE value < l. C13_public_iff (sound + complete): accepted <-> canonical encoding of a point on the curve (y < p, x recoverable with the encoded sign, no negative zero); completeness uses Nat.Prime p proved from a generated Pratt certificate. C13_public_eq_reference: the model accepts exactly what RFC 8032 strict decoding accepts, for every byte string. C13_rejects_noncanonical_y (all y in [p, 2^255)), C13_rejects_negative_zero, C13_bytes_roundtrip (binary, hex, consensus). Key ARITHMETIC (from_private_key, +, -, *) delegates to curve25519-dalek and is compared on every run with the Lean reference curve on random and special operands (identity, small-order points, l-1, P+(-P)); C13_curve_points_form_a_group / C13_group_law / C13_base_point_order / C13_encoding_bijective prove that this reference is the abelian group of curve points (complete Edwards addition law), with base point of order exactly l and a bijective encoding. The text, Display and consensus forms have an independent spec side (accepted iff RFC 8032 / < l).",
+    level_note="Trusted: Lean kernel (+ Mathlib for ZMod / lucas_primality); model/Rust correspondence of acceptance differential (incl. all 38 non-canonical-y encodings, both negative-zero encodings, the 8 small-order points); dalek's field/point arithmetic is a dependency: modelled by Ref/Ed25519.lean (proved to be the Edwards group law) and tied to it differentially.",
     design_ref="DESIGN.md §6 C13",
     rule="random 32-byte strings, all non-canonical-y and negative-zero encodings, small-order points and sign flips, random valid points / invalid y, boundary scalars; arithmetic on random and special operands.",
-    assumptions=["'is the group law' for dalek's arithmetic is conformance, not proof"],
+    assumptions=["curve25519-dalek computes the same functions as Ref/Ed25519.lean (differential tie); that Ref/Ed25519.lean is the group law is proved"],
     gen_items=[],
 )
 
 _CRYPTO_NOTE = ("Trusted: Lean kernel (+ Mathlib's AddCommGroup/Module for the abstract group); the theorems hold for EVERY lawful instance of CryptoOps "
                 "(Proofs/Group.lean `Lawful`: add/sub/smul are the operations of an additive commutative group, l•G = 0, 8 < l, enc injective, dec∘enc = some; "
-                "a concrete lawful instance Z/(8l) is exhibited). That curve25519-dalek's Ed25519 arithmetic is such a group is a mathematical fact taken as "
-                "hypothesis (Mathlib has no Edwards group law); dalek and tiny-keccak are modelled by Ref/Ed25519.lean and Ref/Keccak.lean and tied "
+                "a toy lawful instance Z/(8l) is exhibited) AND are instantiated, hypothesis-free, at Ed25519 itself (`*_ed25519` theorems): "
+                "Proofs/EdwardsGroup.lean proves the twisted Edwards addition law on GF(2^255-19) is an abelian group (completeness from d non-square, "
+                "associativity by polynomial certificates), Proofs/EdwardsRef*/EdwardsLawful.lean that the executable reference Ref/Ed25519.lean (what the "
+                "driver runs) computes in that group and that its primitives record is Lawful (l•G = 0, injective encoding, strict decoding). What remains "
+                "trusted is that curve25519-dalek and tiny-keccak (dependencies) compute the same functions as Ref/Ed25519.lean and Ref/Keccak.lean: tied "
                 "differentially. Model/Rust correspondence of the control flow is differential; salts, cofactor and H are regenerated from source.")
 
 PROPS["C10"] = dict(
@@ -178,7 +181,7 @@ PROPS["C10"] = dict(
     level_note=_CRYPTO_NOTE,
     design_ref="DESIGN.md §6 C10, §7 item 1",
     rule="300 (quick) / 2000 (thorough) keys x 9 torsion variants, scalars random/0/1/l-1, one-time keys with torsion on R, V, S; malformed operands.",
-    assumptions=["dalek's point arithmetic is the Ed25519 group law (conformance against Ref/Ed25519.lean)"],
+    assumptions=["curve25519-dalek computes the same functions as Ref/Ed25519.lean (differential tie); that Ref/Ed25519.lean is the Ed25519 group law is proved (edOps_lawful)"],
     gen_items=["mulFactor"],
 )
 
@@ -189,7 +192,7 @@ PROPS["C09"] = dict(
     level_note=_CRYPTO_NOTE,
     design_ref="DESIGN.md §6 C09",
     rule="10 (quick) / 100 (thorough) wallets x 10 positions x 5 indices, every 5th case with a torsioned tx key.",
-    assumptions=["dalek's arithmetic is the group law (conformance)"],
+    assumptions=["curve25519-dalek computes the same functions as Ref/Ed25519.lean (differential tie); that Ref/Ed25519.lean is the Ed25519 group law is proved (edOps_lawful)"],
     gen_items=["mulFactor", "subaddrSalt"],
 )
 
@@ -211,7 +214,7 @@ PROPS["C07"] = dict(
     level_note=_CRYPTO_NOTE + " That a foreign key does not satisfy the equation by accident is cryptographic (sampled, not proved); the theorem is an exact characterisation so it needs no such assumption.",
     design_ref="DESIGN.md §6 C07",
     rule="~40 (quick) / ~400 (thorough) scenarios; positions cross 128 and 16384 via filler outputs around real ones; missing/duplicate tx key fields, short additional-key lists, wrong tags/positions, out-of-range subaddresses, torsioned keys.",
-    assumptions=["dalek's arithmetic is the group law (conformance)"],
+    assumptions=["curve25519-dalek computes the same functions as Ref/Ed25519.lean (differential tie); that Ref/Ed25519.lean is the Ed25519 group law is proved (edOps_lawful)"],
     gen_items=["viewTagSalt", "mulFactor", "subaddrSalt", "CAP"],
 )
 
